@@ -142,7 +142,7 @@ Fixpoint join_dot (parts : list bytes) : bytes :=
   | p :: r => p ++ ch_dot :: join_dot r
   end.
 
-Definition starts_with_brace (s : bytes) : bool := match s with 123 :: _ => true | _ => false end.
+Definition starts_with_brace (s : bytes) : bool := match s with c :: _ => c =? 123 | [] => false end.
 
 (* computeAuthData (jws.go): the verifier re-encodes the protected bytes it received *)
 Definition signing_input (prot payload : bytes) : bytes :=
@@ -516,7 +516,7 @@ Definition jwe_of_b64 (p k i c t : bytes) : res jwe_fields :=
    (12 z alg apu apv size hashlen ((in out)...))   DeriveECDHES' KDF -> (0 (inputs...) key)
    (13 data length)               newFixedSizeBuffer              -> (0 out) | (2)
    (14 r s keybytes)              ECDSA r||s                      -> (0 sig) | (2)
-   (15 sig keysize)               ECDSA split                     -> (0 r s) | (1 1)
+   (15 sig keysize)               ECDSA length check / split      -> (0) | (1 1)
    (16 e n)                       rsaThumbprintInput              -> (0 text)
    (17 crv x y size)              ecThumbprintInput               -> (0 text) | (2)
    (18 token thumb)               acme key authorization          -> (0 text)
@@ -554,7 +554,7 @@ Definition run_c16 (c : sx) : sx :=
   | SL (SZ 13 :: SB d :: SZ l :: _) => obs_res (let* o := fixed_size d (z2n l) in Ok [SB o])
   | SL (SZ 14 :: SZ r :: SZ s :: SZ kb :: _) => obs_res (let* o := ecdsa_sig (z2n r) (z2n s) (z2n kb) in Ok [SB o])
   | SL (SZ 15 :: SB sig :: SZ ks :: _) =>
-      obs_res (let* rs := ecdsa_split sig (z2n ks) in Ok [sN (fst rs); sN (snd rs)])
+      obs_res (let* _ := ecdsa_split sig (z2n ks) in Ok [])
   | SL (SZ 16 :: SZ e :: SZ n :: _) => s_ok [SB (rsa_thumb_input (z2n e) (z2n n))]
   | SL (SZ 17 :: SB crv :: SZ x :: SZ y :: SZ size :: _) =>
       obs_res (let* o := ec_thumb_input crv (z2n x) (z2n y) (z2n size) in Ok [SB o])
